@@ -207,7 +207,7 @@ impl Property for C14 {
     }
 
     fn plan(&self, tier: Tier) -> Vec<Stage<Case>> {
-        vec![Stage::random("random", tier.pick(400_000, 8_000_000), case_strategy)]
+        vec![Stage::random("random", tier.pick(800_000, 25_000_000), case_strategy)]
     }
 
     fn rule(&self) -> String {
@@ -215,7 +215,7 @@ impl Property for C14 {
     }
 
     fn floors(&self, tier: Tier) -> Vec<Floor> {
-        let n = tier.pick(400_000u64, 8_000_000);
+        let n = tier.pick(800_000u64, 25_000_000);
         vec![
             Floor { label: "x:right-end", min: n / 4 },
             Floor { label: "x:interior-knot", min: n / 4 },
